@@ -99,7 +99,11 @@ pub fn run(seed: u64, n: usize, driver: &str, out: &str) -> serde_json::Value {
             };
             let chaos = if rng.chance(1, 6) { *rng.pick(&cg) } else { *rng.pick(&pal) };
             let coh = if rng.chance(1, 4) { "-".to_string() } else { format!("English:{}", fbits(*rng.pick(&hpal))) };
-            let enc = order[i % order.len()].to_string();
+            // one item in ten repeats BOTH the encoding and the text of an earlier item under other scores (two analyses of
+            // the same bytes under different windows put into one container): `==` on matches is not the ranking order
+            let twin = if i > 0 && rng.chance(1, 10) { Some(rng.below(i)) } else { None };
+            let text = match twin { Some(j) => items[j].5.clone().unwrap(), None => text };
+            let enc = match twin { Some(j) => items[j].0.clone(), None => order[i % order.len()].to_string() };
             let payload: Vec<u8> = if heavy {
                 vec![b'x'; charset_normalizer_rs::consts::TOO_BIG_SEQUENCE + 1 + rng.below(3)]
             } else {
